@@ -23,7 +23,7 @@ ASSUMPTIONS = [
 ]
 
 OPS = ["eval", "basis", "insert", "remove", "elevate", "reduce", "split", "join",
-       "add", "sub", "mul", "div", "matmul", "fit_curve", "fit_points", "integrate"]
+       "add", "sub", "mul", "div", "matmul", "fit_curve", "fit_points", "integrate", "lossy"]
 
 
 # ----------------------------------------------------------------- number generators
@@ -228,6 +228,19 @@ def run_op(case, num):
             items.append(("state", lib.state_of(T)))
             raws.append(T.ctrlpoints)
         return items, raws
+    if op == "lossy":
+        # a projection that really loses something: forced removal of a needed knot, or forced degree reduction
+        if a.w is not None:
+            raise Skip()
+        inner = [z for z in bk[1:-1] if oracle.mult(a.U, z) <= a.p]
+        if inner:
+            zl = [u for u in A.knotvector if oracle.frac(u) == inner[0]]
+            A.knot_remove([zl[0]], None)
+        elif a.p >= 2:
+            A.degree_decrease(1, None)
+        else:
+            raise Skip()
+        return [("state", lib.state_of(A))], [A.ctrlpoints, A.weights, list(A.knotvector)]
     if op == "integrate":
         from compmec.nurbs.calculus import Integrate
         if a.w is not None or not a.scalar:
@@ -263,6 +276,11 @@ def expected(case, num="frac"):
         if op == "fit_curve":
             out.append(("value", (F(0),)))
         return out
+    if op == "lossy":
+        # differential between the number profiles: the exact run of the library on the same (rounded) data is the
+        # reference (its correctness as a projection is what C05 / C06 / C11 decide)
+        items, _ = run_op(dict(case, A=cA), "frac")
+        return [("same", items[0][1])]
     if op == "split":
         z = bk[0] + (bk[1] - bk[0]) * t
         return [("piece", a, a.U[0], z), ("piece", a, z, a.U[-1])]
